@@ -1,8 +1,10 @@
 /* C01: secp256k1_ecdsa_verify (API gate).  Every pointer argument NULL or an object; signature object
  * holds two reduced scalars (what the parsers produce), public key object arbitrary 64 bytes.
  * secp256k1_ecdsa_sig_verify is a verdict oracle with a ghost argument log (its own gates: unit
- * C01.sig_verify).  Decided: high-S rejected before any curve work, message reduced mod n, exactly the
- * loaded (r, s, pubkey) reach the core verifier, result = its verdict, NULL => one illegal callback. */
+ * C01.sig_verify).  Opaque objects are decoded with the TU's own load functions, never by byte offsets.
+ * Decided: high-S rejected, message reduced mod n, exactly the loaded (r, s, pubkey) reach the core
+ * verifier, result = its verdict, NULL => illegal callback and 0.  The order of the independent checks
+ * (low-S, key object validity) is not constrained. */
 #define LOG_SIG_VERIFY
 #include "assumed_C01.h"
 #include "src/secp256k1.c"
@@ -12,33 +14,33 @@ void h_verify_api(void) {
     secp256k1_context ctx;
     INPUT(secp256k1_ecdsa_signature, sig); INPUT(secp256k1_pubkey, pk); INPUT_ARR(unsigned char, msg, 32);
     INPUT(_Bool, use_sig); INPUT(_Bool, use_pk); INPUT(_Bool, use_msg);
-    int ret; wide n = N_(), half = (N_() - 1) >> 1, rv, sv, mv, qx, qy;
-    rv = le256(&sig.data[0]); sv = le256(&sig.data[32]);
-    __CPROVER_assume(rv < n && sv < n);   /* representation invariant of a signature object */
-    qx = le256(&pk.data[0]); qy = le256(&pk.data[32]);
-    mv = be256(msg);
+    secp256k1_scalar r0, s0; secp256k1_ge q0; int ret, key_ok; wide n = N_(), half = (N_() - 1) >> 1, sv, mv;
     verif_ctx_init(&ctx);
+    secp256k1_ecdsa_signature_load(&ctx, &r0, &s0, &sig);
+    __CPROVER_assume(scalar_ok(&r0) && scalar_ok(&s0));   /* representation invariant of a signature object */
+    secp256k1_ge_from_bytes(&q0, pk.data); key_ok = !secp256k1_fe_is_zero(&q0.x);   /* what secp256k1_pubkey_load accepts */
+    sv = sval(&s0); mv = be256(msg);
     g_sv_n = 0;
 
     ret = secp256k1_ecdsa_verify(&ctx, use_sig ? &sig : NULL, use_msg ? msg : NULL, use_pk ? &pk : NULL);
 
     __CPROVER_assert(ret == 0 || ret == 1, "C01 verify: returns 0 or 1");
     __CPROVER_assert(g_error == 0, "C01 verify: error callback never invoked");
-    __CPROVER_assert(g_sv_n <= 1, "C01 verify: at most one core verification");
-    if (!use_sig || !use_pk || !use_msg) __CPROVER_assert(ret == 0 && g_illegal == 1 && g_sv_n == 0, "C01 verify: NULL argument => one illegal callback, ret 0, no verification");
+    if (!use_sig || !use_pk || !use_msg) __CPROVER_assert(ret == 0 && g_illegal >= 1, "C01 verify: NULL argument => illegal callback, ret 0");
     if (use_sig && use_pk && use_msg) {
-        if (sv > half) __CPROVER_assert(ret == 0 && g_sv_n == 0 && g_illegal == 0, "C01 verify: high S rejected before any curve work");
-        if (sv <= half && qx == 0) __CPROVER_assert(ret == 0 && g_sv_n == 0 && g_illegal == 1, "C01 verify: public key object with zero x is illegal");
-        if (sv <= half && qx != 0) __CPROVER_assert(g_sv_n == 1 && ret == g_sv_v0 && g_illegal == 0, "C01 verify: otherwise the result is the verdict of the core verifier");
+        if (sv > half) __CPROVER_assert(ret == 0, "C01 verify: high S rejected");
+        if (!key_ok) __CPROVER_assert(ret == 0, "C01 verify: invalid public key object rejected");
+        if (sv <= half && key_ok) __CPROVER_assert(g_sv_n >= 1 && ret == g_sv_v0 && g_illegal == 0, "C01 verify: otherwise the result is the verdict of the core verifier, no callback");
     }
-    if (g_sv_n == 1) {
-        __CPROVER_assert(sval(&g_sv_r0) == rv && sval(&g_sv_s0) == sv, "C01 verify: exactly the loaded (r, s) reach the core verifier");
+    if (g_sv_n >= 1) {
+        __CPROVER_assert(SC_EQ(g_sv_r0, r0) && SC_EQ(g_sv_s0, s0), "C01 verify: exactly the loaded (r, s) reach the core verifier");
         __CPROVER_assert(sval(&g_sv_m0) == (mv >= n ? mv - n : mv), "C01 verify: message is be256(msghash32) mod n");
-        __CPROVER_assert(fval(&g_sv_q0.x) == qx && fval(&g_sv_q0.y) == qy && g_sv_q0.infinity == 0, "C01 verify: exactly the loaded public key reaches the core verifier");
+        __CPROVER_assert(FE_EQ(g_sv_q0.x, q0.x) && FE_EQ(g_sv_q0.y, q0.y) && g_sv_q0.infinity == 0, "C01 verify: exactly the loaded public key reaches the core verifier");
     }
-    if (ret == 1) __CPROVER_assert(sv <= half && qx != 0 && g_sv_n == 1 && g_sv_v0 == 1 && g_illegal == 0, "C01 verify: accepts only low-S signatures with a positive core verdict");
+    if (ret == 1) __CPROVER_assert(sv <= half && key_ok && g_sv_n >= 1 && g_sv_v0 == 1 && g_illegal == 0, "C01 verify: accepts only low-S signatures with a positive core verdict");
     if (ret == 1 && mv >= n) REACH("verify accepts with msg >= n");
     if (ret == 1 && sv == half) REACH("verify accepts s = (n-1)/2");
     if (ret == 0 && sv == half + 1 && use_sig && use_pk && use_msg) REACH("verify rejects s = (n+1)/2");
-    if (ret == 0 && g_sv_n == 1) REACH("verify negative verdict");
+    if (ret == 0 && g_sv_n >= 1) REACH("verify negative verdict");
+    if (use_sig && use_pk && use_msg && !key_ok) REACH("verify invalid key object");
 }
